@@ -374,6 +374,18 @@ def double_cast(t):
     return any(double_cast(c) for c in T.children(t))
 
 
+# SQL-string predicates in Spark's lexical conventions (double-quoted string literal, back-quoted identifier, backslash
+# escape), given as text to F.expr(...) and df.where(...): each must behave like the Column-built tree beside it
+_A, _S, _T = ("col", "a"), ("col", "s"), ("col", "t")
+SQL_STRINGS = [
+    ('s = "a"', ("bin", "==", _S, ("py", "a"))),
+    ('`a` > 0 AND `s` = "ab"', ("bin", "&", ("bin", ">", _A, ("py", 0)), ("bin", "==", _S, ("py", "ab")))),
+    ("s = 'a' OR t = 'x\\'y'", ("bin", "|", ("bin", "==", _S, ("py", "a")), ("bin", "==", _T, ("py", "zz")))),
+    ('NOT (`t` <=> "")', ("not", ("nse", _T, ("py", "")))),
+    ('a BETWEEN 0 AND 1 AND `s` IN ("a", "ab")', ("bin", "&", ("between", _A, ("py", 0), ("py", 1)), ("isin", _S, ["a", "ab"]))),
+]
+
+
 def make_trees(ctx):
     rnd = random.Random(ctx.seed)
     g = T.Gen(rnd)
@@ -511,6 +523,15 @@ def run(ctx: core.Ctx):
         prebuilt[len(trees_src)] = col
         programs[len(trees_src)] = prog
         trees_src.append(("shared", tree))
+    sqltext = {}
+    for text, tree in SQL_STRINGS:
+        try:
+            col = impl.F.expr(text)
+        except Exception as ex:
+            col = ex
+        prebuilt[len(trees_src)] = col
+        sqltext[len(trees_src)] = text
+        trees_src.append(("sqlstring", tree))
     trees = [t for _, t in trees_src]
     res, cols = run_impl(impl, trees, ctx, prebuilt)
     ctx.log(f"{len(trees)} trees ({n_exh} bounded-exhaustive to depth 2), {impl.n_queries} select statements")
@@ -534,10 +555,10 @@ def run(ctx: core.Ctx):
     for i, ((src, t), r, f) in enumerate(zip(trees_src, res, fields)):
         if f is None or "vals" not in r or not all(v in ("N", "bT", "bF") for v in r["vals"]):
             continue
-        if not (src == "corpus" or T.depth(t) <= 1 or i % 4 == 0):
+        if not (src in ("corpus", "sqlstring") or T.depth(t) <= 1 or i % 4 == 0):
             continue
         try:
-            r["where"] = impl.where(cols[i])[0]
+            r["where"] = impl.where(sqltext.get(i, cols[i]))[0]     # a SQL-string predicate goes to where() as text
         except Exception as ex:
             r["where_err"] = err_class(ex)
         n_where += 1
@@ -564,6 +585,8 @@ def run(ctx: core.Ctx):
         desc = {"tree": t, "python": T.to_src(t), "sql_sent": r.get("text"), "sql_model": mtext,
                 "duckdb_parse": ps, "model_parse": mparse, "intended_tree": intended, "flags(in_class,safe,known,roundtrip)": flags,
                 "pyspark_values(spec)": svals, "unsafe_subtrees": markers}
+        if idx in sqltext:
+            desc["sql_string"] = sqltext[idx]        # given as text to F.expr(...) and df.where(...); `tree` is its Column-built equivalent
         if idx in programs:
             desc["shared_program"] = programs[idx]   # the Column object of shared_subtree was built once and reused
         stats["evaluations"] += len(spec)
@@ -576,7 +599,8 @@ def run(ctx: core.Ctx):
             same_on_agree = len(mv) == len(sv) and all(a == b for a, b, f in zip(mv, sv, pr) if f == "-")
             if not (safe and known and rt and mparse == intended and same_on_agree) and proved:
                 ctx.broken("theorem-vs-evaluation", "tree of the class on which the executable model disagrees with C05_partial: " + T.to_src(t), desc)
-        ak = bool(alias_kept(t))   # "x AS z" inside an expression: not in the modelled fragment, judged against the spec only
+        # not in the modelled fragment, judged against the spec only: "x AS z" inside an expression; predicates given as SQL text
+        ak = bool(alias_kept(t)) or src == "sqlstring"
         stats["outside_model"] = stats.get("outside_model", 0) + ak
         # -- T2: text and parse
         if r.get("text") is not None and not ak:
@@ -649,6 +673,8 @@ def run(ctx: core.Ctx):
                 stats["regrouped_value_equal"] += 1
         else:
             sigs = prim_sigs + signatures(t, markers)
+            if src == "sqlstring":
+                sigs = ["C05/sql-string-predicate-differs-from-column-tree"]
             if len(set(sigs)) == 1:
                 confirmed.add(sigs[0])
             devs.append(("DEV", (t, sigs, bad, desc)))
@@ -767,7 +793,7 @@ def prove_refutations(ctx) -> dict:
     return out
 
 
-PRIM_SIGS = ("C05/cast-fraction-to-integer-rounds", "C05/substr-start-zero", "C05/substr-negative-start-before-string")
+PRIM_SIGS = ("C05/sql-string-predicate-differs-from-column-tree", "C05/cast-fraction-to-integer-rounds", "C05/substr-start-zero", "C05/substr-negative-start-before-string")
 
 
 def in_theorem_class(desc) -> bool:
@@ -790,6 +816,9 @@ def replay(ctx: core.Ctx, rp: dict) -> int:
             built = [T.to_col(T.from_json(c), impl.F, hole=X) for c in sp["contexts"]]   # all uses first, as in the run
             col = built[sp["use"]]
             print("shared  :", T.to_src(u), "built once and reused in", len(built), "expressions; this is use", sp["use"])
+        elif r.get("sql_string"):
+            print("sql text:", r["sql_string"], "(given to F.expr; the tree above is its Column-built equivalent)")
+            col = impl.F.expr(r["sql_string"])
         else:
             col = impl.build(t)
         texts, vals = impl.select([col])
